@@ -9,6 +9,8 @@ META = {
 PRIV = ['-Dprivate=public', '-Dprotected=public']
 STUBS = {'_ZN6Qentem5Digit18powerOfPositiveTenIyEEvRT_j': 'stub_p10pos', '_ZN6Qentem5Digit18powerOfNegativeTenIyEEvRT_j': 'stub_p10neg'}
 MANUAL_KF = bool(os.environ.get('VF_KF_MANUAL'))
+def ko(only):
+    return None if MANUAL_KF else only
 def kf(defs, excl=(), only=None):
     """until the ids are listed in known_findings.json the defines can be forced with VF_KF_MANUAL=1 (testing only)"""
     d = dict(defs)
@@ -28,20 +30,23 @@ def queries(tier):
         # known findings inside the scanner window (expected counterexamples)
         qs.append(Query('scan/%s/L5/kf-overflow' % ch, 'C09_scan.cpp', 'h_scan', kf({'LEN': 5, 'CHAR': ch}, ['C09-zero-exponent'], 'C09-overflow-finite'),
                         bounds={'stringToNumber|parseExponent|ref_scan|h_scan|vf_buf.*': 6}, stubs=STUBS, cflags=PRIV,
-                        kf_excl=['C09-zero-exponent'], kf_only='C09-overflow-finite', timeout=600, mem_gb=8))
+                        kf_excl=['C09-zero-exponent'], kf_only=ko('C09-overflow-finite'), timeout=600, mem_gb=8))
         qs.append(Query('scan/%s/L3/kf-zero-exp' % ch, 'C09_scan.cpp', 'h_scan', kf({'LEN': 3, 'CHAR': ch}, ['C09-overflow-finite'], 'C09-zero-exponent'),
                         bounds={'stringToNumber|parseExponent|ref_scan|h_scan|vf_buf.*': 4}, stubs=STUBS, cflags=PRIV,
-                        kf_excl=['C09-overflow-finite'], kf_only='C09-zero-exponent', timeout=600, mem_gb=8))
+                        kf_excl=['C09-overflow-finite'], kf_only=ko('C09-zero-exponent'), timeout=600, mem_gb=8))
         # long integer numerals: 19-digit window, 2^63 / 2^64 boundaries
-        for nd in (19, 20, 21):
-            for sg in (0, 1):
-                n = nd + (1 if sg else 0)
-                b = {'stringToNumber': n + 1, 'h_int': nd + 1, 'vf_buf.*': n + 1}
-                ex = ['C09-int64-min-real']
-                qs.append(Query('int/%s/nd%d/sign%d' % (ch, nd, sg), 'C09_scan.cpp', 'h_int', kf({'ND': nd, 'SIGN': sg, 'CHAR': ch}, ex), bounds=b,
-                                stubs=STUBS, cflags=PRIV, kf_excl=ex, timeout=600, mem_gb=8, backend=os.environ.get('C09_INT_BACKEND', 'cvc5int')))
-        qs.append(Query('int/%s/nd19/sign1/kf-int64-min' % ch, 'C09_scan.cpp', 'h_int', kf({'ND': 19, 'SIGN': 1, 'CHAR': ch}, [], 'C09-int64-min-real'),
-                        bounds={'stringToNumber': 21, 'h_int': 20, 'vf_buf.*': 21}, stubs=STUBS, cflags=PRIV, kf_only='C09-int64-min-real', timeout=600, mem_gb=8))
+        if tier == 'quick' and ch != 'char': continue      # wide units for these in the thorough tier
+        # (prefix pins the leading digits; the trailing digits are symbolic)
+        WIN = [('2p64', 20, 0, '184467440737095'), ('2p64n', 20, 1, '184467440737095'), ('2p63', 19, 0, '92233720368547'), ('2p63n', 19, 1, '92233720368547'),
+               ('max20', 20, 0, '999999999999999'), ('d21', 21, 0, '1000000000000000'), ('d21n', 21, 1, '1844674407370955')]
+        for tag, nd, sg, pfx in WIN:
+            n = nd + (1 if sg else 0)
+            b = {'stringToNumber': n + 1, 'h_int': nd + 1, 'vf_buf.*': n + 1}
+            ex = ['C09-int64-min-real']
+            qs.append(Query('int/%s/%s' % (ch, tag), 'C09_scan.cpp', 'h_int', kf({'ND': nd, 'SIGN': sg, 'CHAR': ch, 'PFX': '"%s"' % pfx}, ex), bounds=b,
+                            stubs=STUBS, cflags=PRIV, kf_excl=ex, timeout=600, mem_gb=8))
+        qs.append(Query('int/%s/2p63n/kf-int64-min' % ch, 'C09_scan.cpp', 'h_int', kf({'ND': 19, 'SIGN': 1, 'CHAR': ch, 'PFX': '"92233720368547"'}, [], 'C09-int64-min-real'),
+                        bounds={'stringToNumber': 21, 'h_int': 20, 'vf_buf.*': 21}, stubs=STUBS, cflags=PRIV, kf_only=ko('C09-int64-min-real'), timeout=600, mem_gb=8))
         # long written exponents
         for ne in (9, 10, 11):
             for es in (0, 1):
@@ -51,5 +56,5 @@ def queries(tier):
                 qs.append(Query('exp/%s/ne%d/sign%d' % (ch, ne, es), 'C09_scan.cpp', 'h_exp', kf({'NE': ne, 'ESIGN': es, 'CHAR': ch}, ex), bounds=b,
                                 stubs=STUBS, cflags=PRIV, kf_excl=ex, timeout=600, mem_gb=8))
         qs.append(Query('exp/%s/ne10/sign0/kf-wrap' % ch, 'C09_scan.cpp', 'h_exp', kf({'NE': 10, 'ESIGN': 0, 'CHAR': ch}, [], 'C09-exponent-wrap'),
-                        bounds={'stringToNumber|parseExponent': 14, 'h_exp': 11, 'vf_buf.*': 14}, stubs=STUBS, cflags=PRIV, kf_only='C09-exponent-wrap', timeout=600, mem_gb=8))
+                        bounds={'stringToNumber|parseExponent': 14, 'h_exp': 11, 'vf_buf.*': 14}, stubs=STUBS, cflags=PRIV, kf_only=ko('C09-exponent-wrap'), timeout=600, mem_gb=8))
     return qs
